@@ -6,6 +6,7 @@
 //   2 panicked AFTER writing to the receiver (storage of another element was modified)
 //   3 returned, but a by-reference operand was modified
 //   4 returned, but the owned and the borrowed form disagree
+//   5 the by-reference form panicked but the consuming (owned) form of the same operation returned a value
 #![allow(dead_code)]
 use std::panic::{catch_unwind, AssertUnwindSafe};
 use ohsl::{Banded, Matrix, Mesh1D, Mesh2D, Polynomial, Sparse, Tridiagonal, Vector};
@@ -94,6 +95,11 @@ fn run<R>(f: impl FnOnce() -> R, same: impl FnOnce() -> bool, agree: impl FnOnce
 }
 
 fn yes<R>(_: &R) -> bool { true }
+// the consuming counterpart must reject what the by-reference form rejects
+fn also_owned<R>(code: i128, f: impl FnOnce() -> R) -> i128 {
+    if code != 1 { return code; }
+    if catch_unwind(AssertUnwindSafe(f)).is_err() { 1 } else { 5 }
+}
 
 fn entry(key: &str, t: &[i64]) -> i128 {
     match key {
@@ -101,9 +107,11 @@ fn entry(key: &str, t: &[i64]) -> i128 {
         "vec_add_ref" | "vec_sub_ref" => {
             let (a, b) = (vecn(u(t[0])), vecn(u(t[1]))); let (sa, sb) = (bits_v(&a), bits_v(&b));
             let add = key == "vec_add_ref";
-            run(|| if add { &a + &b } else { &a - &b }, || bits_v(&a) == sa && bits_v(&b) == sb,
+            let c = run(|| if add { &a + &b } else { &a - &b }, || bits_v(&a) == sa && bits_v(&b) == sb,
                 |r| { let o = if add { a.clone() + b.clone() } else { a.clone() - b.clone() }; let o2 = if add { a.clone() + &b } else { a.clone() - &b };
-                      bits_v(r) == bits_v(&o) && bits_v(r) == bits_v(&o2) }, false)
+                      bits_v(r) == bits_v(&o) && bits_v(r) == bits_v(&o2) }, false);
+            let c = also_owned(c, || if add { a.clone() + b.clone() } else { a.clone() - b.clone() });
+            also_owned(c, || if add { a.clone() + &b } else { a.clone() - &b })
         }
         "vec_add_assign" | "vec_sub_assign" => {
             let (mut a, b) = (vecn(u(t[0])), vecn(u(t[1]))); let sa = bits_v(&a);
@@ -131,8 +139,9 @@ fn entry(key: &str, t: &[i64]) -> i128 {
         "mat_delete_row" => { let mut m = matn(u(t[0]), u(t[1])); let s = bits_m(&m);
             let r = catch_unwind(AssertUnwindSafe(|| m.delete_row(u(t[2])))); if r.is_err() { if bits_m(&m) == s { 1 } else { 2 } } else { 0 } }
         "mat_multiply" => { let m = matn(u(t[0]), u(t[1])); let v = vecn(u(t[2])); let (s, sv) = (bits_m(&m), bits_v(&v));
-            run(|| m.multiply(&v), || bits_m(&m) == s && bits_v(&v) == sv,
-                |r| { let o = &m * &v; let o2 = m.clone() * v.clone(); bits_v(r) == bits_v(&o) && bits_v(r) == bits_v(&o2) }, false) }
+            let c = run(|| m.multiply(&v), || bits_m(&m) == s && bits_v(&v) == sv,
+                |r| { let o = &m * &v; let o2 = m.clone() * v.clone(); bits_v(r) == bits_v(&o) && bits_v(r) == bits_v(&o2) }, false);
+            let c = also_owned(c, || &m * &v); also_owned(c, || m.clone() * v.clone()) }
         "mat_swap_rows" => { let mut m = matn(u(t[0]), u(t[1])); let s = bits_m(&m);
             let r = catch_unwind(AssertUnwindSafe(|| m.swap_rows(u(t[2]), u(t[3])))); if r.is_err() { if bits_m(&m) == s { 1 } else { 2 } } else { 0 } }
         "mat_fill_row" => { let mut m = matn(u(t[0]), u(t[1])); let s = bits_m(&m);
@@ -149,15 +158,17 @@ fn entry(key: &str, t: &[i64]) -> i128 {
         "mat_determinant" => { let m = matn(u(t[0]), u(t[1])); let s = bits_m(&m); run(|| m.determinant(), || bits_m(&m) == s, yes, false) }
         "mat_add_ref" | "mat_sub_ref" => { let (a, b) = (matn(u(t[0]), u(t[1])), matn(u(t[2]), u(t[3]))); let (sa, sb) = (bits_m(&a), bits_m(&b));
             let add = key == "mat_add_ref";
-            run(|| if add { &a + &b } else { &a - &b }, || bits_m(&a) == sa && bits_m(&b) == sb,
-                |r| { let o = if add { a.clone() + b.clone() } else { a.clone() - b.clone() }; bits_m(r) == bits_m(&o) }, false) }
+            let c = run(|| if add { &a + &b } else { &a - &b }, || bits_m(&a) == sa && bits_m(&b) == sb,
+                |r| { let o = if add { a.clone() + b.clone() } else { a.clone() - b.clone() }; bits_m(r) == bits_m(&o) }, false);
+            also_owned(c, || if add { a.clone() + b.clone() } else { a.clone() - b.clone() }) }
         "mat_add_assign_ref" | "mat_sub_assign_ref" => { let (mut a, b) = (matn(u(t[0]), u(t[1])), matn(u(t[2]), u(t[3]))); let (sa, sb) = (bits_m(&a), bits_m(&b));
             let add = key == "mat_add_assign_ref";
             let r = catch_unwind(AssertUnwindSafe(|| if add { a += &b } else { a -= &b }));
-            if r.is_err() { if bits_m(&a) == sa && bits_m(&b) == sb { 1 } else { 2 } } else if bits_m(&b) != sb { 3 } else {
+            if r.is_err() { if bits_m(&a) == sa && bits_m(&b) == sb { also_owned(1, || { let mut o = matn(u(t[0]), u(t[1])); if add { o += b.clone() } else { o -= b.clone() }; o }) } else { 2 } } else if bits_m(&b) != sb { 3 } else {
                 let mut o = matn(u(t[0]), u(t[1])); if add { o += b.clone() } else { o -= b.clone() }; if bits_m(&o) == bits_m(&a) { 0 } else { 4 } } }
         "mat_mul_ref" => { let (a, b) = (matn(u(t[0]), u(t[1])), matn(u(t[2]), u(t[3]))); let (sa, sb) = (bits_m(&a), bits_m(&b));
-            run(|| &a * &b, || bits_m(&a) == sa && bits_m(&b) == sb, |r| { let o = a.clone() * b.clone(); bits_m(r) == bits_m(&o) }, false) }
+            let c = run(|| &a * &b, || bits_m(&a) == sa && bits_m(&b) == sb, |r| { let o = a.clone() * b.clone(); bits_m(r) == bits_m(&o) }, false);
+            also_owned(c, || a.clone() * b.clone()) }
         // ---------------------------------------------------------------- Banded
         "band_fill_band" => { let mut b = Banded::<f64>::new(u(t[0]), u(t[1]), u(t[2]), 0.5); let s = bits_b(&b);
             let r = catch_unwind(AssertUnwindSafe(|| b.fill_band(t[3] as isize, 7.0))); if r.is_err() { if bits_b(&b) == s { 1 } else { 2 } } else { 0 } }
@@ -168,15 +179,17 @@ fn entry(key: &str, t: &[i64]) -> i128 {
             let r = catch_unwind(AssertUnwindSafe(|| { b[(u(t[3]), u(t[4]))] = 7.0; })); if r.is_err() { if bits_b(&b) == s { 1 } else { 2 } } else { 0 } }
         "band_add_ref" | "band_sub_ref" => { let (a, b) = (bandn(u(t[0]), u(t[1]), u(t[2])), bandn(u(t[3]), u(t[4]), u(t[5]))); let (sa, sb) = (bits_b(&a), bits_b(&b));
             let add = key == "band_add_ref";
-            run(|| if add { &a + &b } else { &a - &b }, || bits_b(&a) == sa && bits_b(&b) == sb,
-                |r| { let o = if add { a.clone() + b.clone() } else { a.clone() - b.clone() }; bits_b(r) == bits_b(&o) }, false) }
+            let c = run(|| if add { &a + &b } else { &a - &b }, || bits_b(&a) == sa && bits_b(&b) == sb,
+                |r| { let o = if add { a.clone() + b.clone() } else { a.clone() - b.clone() }; bits_b(r) == bits_b(&o) }, false);
+            also_owned(c, || if add { a.clone() + b.clone() } else { a.clone() - b.clone() }) }
         "band_add_assign_ref" | "band_sub_assign_ref" => { let (mut a, b) = (bandn(u(t[0]), u(t[1]), u(t[2])), bandn(u(t[3]), u(t[4]), u(t[5]))); let (sa, sb) = (bits_b(&a), bits_b(&b));
             let add = key == "band_add_assign_ref";
             let r = catch_unwind(AssertUnwindSafe(|| if add { a += &b } else { a -= &b }));
-            if r.is_err() { if bits_b(&a) == sa && bits_b(&b) == sb { 1 } else { 2 } } else if bits_b(&b) != sb { 3 } else {
+            if r.is_err() { if bits_b(&a) == sa && bits_b(&b) == sb { also_owned(1, || { let mut o = bandn(u(t[0]), u(t[1]), u(t[2])); if add { o += b.clone() } else { o -= b.clone() }; o }) } else { 2 } } else if bits_b(&b) != sb { 3 } else {
                 let mut o = bandn(u(t[0]), u(t[1]), u(t[2])); if add { o += b.clone() } else { o -= b.clone() }; if bits_b(&o) == bits_b(&a) { 0 } else { 4 } } }
         "band_mul_vec" => { let b = bandn(u(t[0]), u(t[1]), u(t[2])); let v = vecn(u(t[3])); let (s, sv) = (bits_b(&b), bits_v(&v));
-            run(|| &b * &v, || bits_b(&b) == s && bits_v(&v) == sv, |r| { let o = b.clone() * v.clone(); bits_v(r) == bits_v(&o) }, false) }
+            let c = run(|| &b * &v, || bits_b(&b) == s && bits_v(&v) == sv, |r| { let o = b.clone() * v.clone(); bits_v(r) == bits_v(&o) }, false);
+            also_owned(c, || b.clone() * v.clone()) }
         // ---------------------------------------------------------------- Tridiagonal
         "tri_with_vectors" => run(|| Tridiagonal::with_vectors(vecn(u(t[0])), vecn(u(t[1])), vecn(u(t[2]))), || true, yes, false),
         "tri_with_vecs" => run(|| Tridiagonal::with_vecs(vecn(u(t[0])).vec, vecn(u(t[1])).vec, vecn(u(t[2])).vec), || true, yes, false),
@@ -189,7 +202,8 @@ fn entry(key: &str, t: &[i64]) -> i128 {
         "tri_add" => { let (a, b) = (trin(u(t[0])), trin(u(t[1]))); run(|| a.clone() + b.clone(), || true, yes, false) }
         "tri_sub" => { let (a, b) = (trin(u(t[0])), trin(u(t[1]))); run(|| a.clone() - b.clone(), || true, yes, false) }
         "tri_mul_vec" => { let a = trin(u(t[0])); let v = vecn(u(t[1])); let (s, sv) = (bits_t(&a), bits_v(&v));
-            run(|| &a * &v, || bits_t(&a) == s && bits_v(&v) == sv, |r| { let o = a.clone() * v.clone(); bits_v(r) == bits_v(&o) }, false) }
+            let c = run(|| &a * &v, || bits_t(&a) == s && bits_v(&v) == sv, |r| { let o = a.clone() * v.clone(); bits_v(r) == bits_v(&o) }, false);
+            also_owned(c, || a.clone() * v.clone()) }
         // ---------------------------------------------------------------- Sparse
         "sp_from_triplets" => { let (r, c) = (u(t[0]), u(t[1]));
             run(|| { let mut tr: Vec<(usize, usize, f64)> = Vec::new();
